@@ -18,9 +18,11 @@ CLAIMED = {
    technique='Lean 4 proof over hand model + differential correspondence (model at Q vs Python)', ref='4/C01'),
  'C02': dict(
    text='The Lean model of every analytic stiffness kernel (fk0, fk0y1y2 of plate, plate_w, cpanel, kpanel) is REGENERATED '
-        'from the .pyx source text on every run; 8 kernel-checked theorems state that each generated entry equals the '
+        'from the .pyx source text on every run; 16 kernel-checked theorems: each generated entry equals the '
         'second derivative of the Donnell CLT strain energy (operator tables of Spec/Kinematics.lean) for all series indices, '
-        'geometries, ABD-structured laminates, all real flag values and both domains, uniformly (abstract integrals J). '
+        'geometries, ABD-structured laminates, all real flag values and both domains, uniformly (abstract integrals J); and the '
+        'whole matrix is symmetric: the entry the kernel formula assigns to the transposed position (roles of row and column basis '
+        'function exchanged) is the same number, so mirroring the upper triangle loses nothing. '
         'Whole-matrix layer: the translator IR is interpreted on random panels against Panel.calc_k0(finalize=False) of the '
         'running binaries (V), and an independent energy-Hessian oracle (operator tables x exact Bardell integrals) is '
         'compared with calc_k0 incl. pre-load, symmetry, PSD and sub-interval additivity (implementation arm).',
@@ -29,17 +31,21 @@ CLAIMED = {
         'rounding not modelled.',
    technique='Lean 4 proof over model regenerated from source (translator) + translation validation + energy oracle', ref='4/C02'),
  'C03': dict(
-   text='Regenerated Lean models of fkG0/fkG0y1y2 (4 models); 9 theorems: each entry is the Hessian of the pre-stress work '
+   text='Regenerated Lean models of fkG0/fkG0y1y2 (4 models) and of the state-based fkG_num (flat, cylindrical); 39 theorems: each entry is the Hessian of the pre-stress work '
         '1/2 int(Nxx w,x^2 + 2Nxy w,x w,y + Nyy w,y^2) (only the w-w block, symmetric weight, linear in the resultants) for all '
-        'indices/geometries/flags. V + oracle as C02; linearity, w-only footprint, and the state-based fkG_num clauses '
-        '(uniform-stress state reproduces the constant-load matrix; per-point laminate table equal to the uniform one changes '
-        'nothing) are evaluated numerically on the implementation.',
-   note='As C02. fkG_num is not yet translated to Lean: its clauses are exploration-level here.',
+        'indices/geometries/flags; the whole matrix is symmetric (transposed position = same value), zero outside the w-w block and '
+        'linear in (Nxx, Nyy, Nxy) as theorems on the regenerated terms; state-based variant at one integration point: every degree of '
+        'freedom contributes amplitude x Donnell operator (the C02 table) to the strain state, NLgeom adds Donnell quadratic terms of the '
+        'whole series, the resultants are N = A eps + B kappa with the laminate of the point, and the integrand is weight x the '
+        'constant-load kernel read on the point values with those resultants - so a uniform-stress state reproduces the constant-load '
+        'matrix and a table equal to the uniform laminate changes nothing. V + oracle as C02; the same clauses are also evaluated '
+        'numerically on the implementation.',
+   note='As C02. Lifting of the point statements to the Gauss sum is by linearity (exactness of the rule: C10).',
    technique='Lean 4 proof over regenerated model + translation validation + oracle', ref='4/C03'),
  'C04': dict(
-   text='Regenerated Lean models of fkM/fkMy1y2; 7 theorems: each of the entries equals the Hessian of the kinetic energy '
+   text='Regenerated Lean models of fkM/fkMy1y2; 13 theorems: each of the entries equals the Hessian of the kinetic energy '
         'of a plate with through-thickness moments (h, h*delta, h(delta^2+h^2/12)) with delta = -d, i.e. the theorems compute '
-        'which reference surface the kernels use. The glue (which d is passed) is checked against the laminate convention by '
+        'which reference surface the kernels use; the whole mass matrix is symmetric (transposed position = same value). The glue (which d is passed) is checked against the laminate convention by '
         'an oracle, total mass of a rigid translation, positive definiteness on active amplitudes and frequency invariance '
         'under a move of the reference surface. A genuine defect (wrong sign passed by Panel.calc_kM) was repaired (fix: ca9efb9).',
    note='As C02; LAPACK eigh trusted for the invariance predicate.',
@@ -149,11 +155,13 @@ CLAIMED = {
         'kL = Hessian form with the non-linear strain-variation operator, kG = pre-stress Hessian with the resultants of the point (C03 state '
         'based), kL at the undeformed state = the ANALYTIC kernel read on point values (C14 numeric = analytic), fint(0) = 0, and the flagship: '
         'for all 9 field pairs x 2 models, fint after adding t x dof B equals fint + t (kL + kG)_AB + t^2 R2 + t^3 R3 identically in t '
-        '(ring identity on the regenerated terms), hence HasDerivAt over the reals: the tangent IS the Jacobian of the internal force. '
+        '(ring identity on the regenerated terms), hence HasDerivAt over the reals: the tangent IS the Jacobian of the internal force - at one '
+        'point and, by a list-sum derivative lemma, for the WHOLE quadrature sum over any list of integration points (each with its own basis '
+        'values, weight, laminate and state); the tangent integrand kL + kG is symmetric at every state (transposed position = same value). '
         'V: pieces driven through Gauss-Legendre vs the running kernels; implementation arm: symmetry, fint(0)=0, kT(0)=k0, kT.dc vs the exact '
         '5-point derivative of the cubic fint, assemblies with connections. One defect repaired (assembly calc_fint raised).',
    note='As C02; Gauss loops / laminate-table switch / COO book-keeping checked as schema + numerically (V), not proved; exactness of the rule is C10; '
-        'lifting from the point to the Gauss sum is by linearity (not formalised).',
+        'that the running loop accumulates exactly the modelled per-point terms is the V tie.',
    technique='Lean 4 proof (ring identities, HasDerivAt) over regenerated model + translation validation + exact finite-difference oracle', ref='4/C08'),
  'C09': dict(
    text='Lean 4 theorems about a hand-written executable state-machine model of _solver_NR (all residual and '
